@@ -144,14 +144,15 @@ def cleanup_drops_guard(body, call, guard_local):
 def root_lock_fns(facts):
     """(acquire fns, release fns): bodies that CAS TreeBin.lock_state to WRITER / store 0 into it"""
     from .anchors import is_std_atomic, receiver_field
+    from .affine import const_val
     acq, rel = [], []
     for b in facts.bodies:
         for c in b.calls:
             n = is_std_atomic(c)
             if n and ("node::TreeBin", "lock_state") in receiver_field(b, c, 0):
-                if n == "compare_exchange" and len(c.args) > 2 and c.args[2].get("int") == facts.const("WRITER") and c.args[1].get("int") == 0:
+                if n == "compare_exchange" and len(c.args) > 2 and const_val(b, c.args[2]) == facts.const("WRITER") and const_val(b, c.args[1]) == 0:
                     acq.append(b)
-                if n == "store" and c.args[1].get("int") == 0:
+                if n == "store" and const_val(b, c.args[1]) == 0:
                     rel.append(b)
     return acq, rel
 
